@@ -3,6 +3,7 @@ import Uom.Proofs.FlConvIdentity
 import Uom.Proofs.BodyEq.Arith
 import Uom.Proofs.BodyEq.Cmp
 import Uom.Proofs.BodyEq.Fwd
+import Uom.Gen.Sigs
 /-!
 # C07 — same-base operations equal the storage type's operations over any history
 
@@ -184,5 +185,22 @@ theorem src_forwarded (N : NumTy) (env : Env N) (a b : N.S.V) :
   ⟨rfl, rfl, rfl, rfl, rfl, rfl, rfl, rfl, rfl, rfl, rfl, rfl, rfl, rfl, rfl, rfl, rfl, rfl, rfl, rfl, rfl, rfl⟩
 
 end SourceTie
+
+/-! ### closed world: no method of the crate's own traits can be picked instead of a forwarded storage-type method
+
+The forwarding theorems above say "`abs` calls the method `abs` on the stored value" — *which* `abs` is method
+resolution.  The crate's traits `Conversion<V>`, `ConversionFactor<V>` … are where-clause bounds of every quantity
+impl, hence in scope; a by-value method of the same name declared there would win over `Signed::abs(&self)`.
+`Gen.Sig.traitFnCodes` pairs every method declared by a trait of the crate with the code of a forwarded method of
+the same name; the only coincidence is `ConversionFactor::powi` (a method of the *factor* type, which is not a
+bound on the stored type in the generic quantity impls). -/
+section MethodResolution
+open Uom.Gen.Sig Uom.Gen.Body
+
+theorem src_no_method_hijack : traitFnCodes = [(trait_ConversionFactor, m_powi)] := by decide
+/-- non-vacuity: the scan saw the trait declarations -/
+example : 0 < traitFnCount := by decide
+
+end MethodResolution
 
 end Uom.C07
